@@ -2,7 +2,9 @@
      quara/objects/qoperation.py : QOperation.func_calc_proj_eq_constraint, func_calc_proj_eq_constraint_with_var,
                                    func_calc_proj_ineq_constraint, func_calc_proj_ineq_constraint_with_var,
                                    func_calc_proj_physical, func_calc_proj_physical_with_var
-     quara/objects/mprocess.py   : MProcess.calc_proj_ineq_constraint_with_var (assembly rule of the result vector).
+     quara/objects/mprocess.py   : MProcess.calc_proj_ineq_constraint_with_var (assembly rule of the result vector),
+                                   convert_var_to_hss, convert_hss_to_var (integer layout: outcome count from the length, inserted / deleted first row)
+     quara/objects/{state,povm,gate,mprocess}.py : default of on_para_eq_constraint of the eight static calc_proj_*_constraint_with_var.
    For ALL requested flags (None / True / False) and own flags the value every closure hands to its callee as
    on_para_eq_constraint is  resolve req own  (explicit request wins, None = the object's own): this is the clause
    "the object-level and variable-level forms compute the same point under BOTH parametrisations" at the level of the
@@ -11,7 +13,7 @@
    meaning (`x if x is not None else self._x`, nested ifs, ...) keeps them valid, while `x or self._x`, passing the own flag,
    a constant, or dropping a forwarded argument breaks them. *)
 From Coq Require Import String List Bool ZArith Lia.
-From QV.Model Require Import C04_PySem.
+From QV.Model Require Import C04_PySem C04_Proj.
 From QVGen Require Import Gen_c04_closures.
 Import ListNotations.
 Open Scope string_scope.
@@ -90,3 +92,45 @@ Proof. intros flag i m dim. unfold gen_mp_ineq_delete, mp_ineq_delete, gen_mp_in
   destruct flag; cbn [andb negb orb]; try reflexivity;
   repeat match goal with |- context [(?a =? ?b)%Z] => destruct (Z.eqb_spec a b) end; try reflexivity; try lia. Qed.
 Print Assumptions gen_mp_ineq_assembly.
+
+(* mprocess.convert_var_to_hss: the integer layout of the code IS the layout of Model/C04_Proj.v (mp_m_of_len, vinsert position of
+   mp_var_to_stacked, summation range and slices of mp_first_row_last, e0, reshape to (m, n, n)) - for every dimension d and every length *)
+Theorem gen_v2h_layout : forall d len : nat,
+  let n := (d * d)%nat in let D := Z.of_nat d in let L := Z.of_nat len in
+  gen_v2h_hs_size D = Z.of_nat (n * n) /\
+  gen_v2h_m_true D L = Z.of_nat (mp_m_of_len true n len) /\
+  gen_v2h_m_false D L = Z.of_nat (mp_m_of_len false n len) /\
+  gen_v2h_loop_n D L = Z.of_nat (mp_m_of_len true n len - 1) /\
+  gen_v2h_insert_pos D L = Z.of_nat ((mp_m_of_len true n len - 1) * (n * n)) /\
+  gen_v2h_one_len D L = Z.of_nat n /\ gen_v2h_one_index D L = 0%Z /\ gen_v2h_one_value D L = 1%Z /\ gen_v2h_acc_len D L = Z.of_nat n /\
+  (forall o : nat, gen_v2h_slice D L (Z.of_nat o) = (Z.of_nat (o * (n * n)), Z.of_nat (o * (n * n) + n))) /\
+  gen_v2h_reshape_true D L = (Z.of_nat (mp_m_of_len true n len), Z.of_nat n, Z.of_nat n) /\
+  gen_v2h_reshape_false D L = (Z.of_nat (mp_m_of_len false n len), Z.of_nat n, Z.of_nat n).
+Proof. intros d len n D L. unfold mp_m_of_len.
+  replace (len / (n * n) + 1 - 1)%nat with (len / (n * n))%nat by lia.
+  assert (H1 : gen_v2h_hs_size D = Z.of_nat (n * n)).
+  { unfold gen_v2h_hs_size. subst n D. rewrite !Nat2Z.inj_mul. ring. }
+  assert (HN : Z.of_nat n = (D * D)%Z) by (subst n D; now rewrite Nat2Z.inj_mul).
+  assert (H2 : gen_v2h_m_true D L = Z.of_nat (len / (n * n) + 1)).
+  { unfold gen_v2h_m_true. rewrite ?H1, Nat2Z.inj_add, Nat2Z.inj_div. fold L. cbn [Z.of_nat]. lia. }
+  assert (H3 : gen_v2h_m_false D L = Z.of_nat (len / (n * n))).
+  { unfold gen_v2h_m_false. rewrite ?H1, Nat2Z.inj_div. fold L. lia. }
+  unfold gen_v2h_loop_n, gen_v2h_insert_pos, gen_v2h_one_len, gen_v2h_one_index,
+    gen_v2h_one_value, gen_v2h_acc_len, gen_v2h_slice, gen_v2h_reshape_true, gen_v2h_reshape_false.
+  rewrite ?H1, ?H2, ?H3, ?Nat2Z.inj_add, ?Nat2Z.inj_mul, ?HN. cbn [Z.of_nat].
+  set (q := Z.of_nat (len / (n * n))). set (P := (D * D)%Z).
+  repeat split; try reflexivity; try lia; try ring;
+    try (intros o; rewrite ?Nat2Z.inj_add, ?Nat2Z.inj_mul, ?HN; fold P; f_equal; ring); try (repeat f_equal; (lia || ring)). Qed.
+Print Assumptions gen_v2h_layout.
+
+(* mprocess.convert_hss_to_var (constrained parametrisation): row 0 (axis 0) of exactly the LAST hs is dropped - the vdelete of mp_hss_to_var *)
+Theorem gen_h2v_layout : forall i m : Z, gen_h2v_delete i m = (i =? m - 1)%Z /\ gen_h2v_row = 0%Z /\ gen_h2v_axis = 0%Z.
+Proof. intros i m. unfold gen_h2v_delete, gen_h2v_row, gen_h2v_axis. split; [|split; reflexivity].
+  repeat match goal with |- context [(?a =? ?b)%Z] => destruct (Z.eqb_spec a b) end; try reflexivity; lia. Qed.
+Print Assumptions gen_h2v_layout.
+
+(* the eight static variable-level projections default to the constrained parametrisation (what the harness calls "flag True") *)
+Theorem gen_static_defaults_true : length gen_static_defaults = 8%nat /\
+  forallb (fun p => match snd p with PBool true => true | _ => false end) gen_static_defaults = true.
+Proof. vm_compute. split; reflexivity. Qed.
+Print Assumptions gen_static_defaults_true.
